@@ -175,6 +175,14 @@ NOTES = {
     'C16-edge-add-drops-cancelled-operators': 'round 4, first run: MISSED (the stand-in compared path polynomials only; an edge with an empty operator list has the right polynomial but breaks OpGraph.as_matrix). r_C16 now compares the dense meaning given by the library with the symbolic one after every rewrite, and adds graphs that cancel terms of the first one',
     'C20-local-chains-fit-check-off-by-one': 'round 4, first run: MISSED by C20 (the Schmidt rank was taken from the dense form of the constructed MPO itself). r_C20 takes it from the documented operator (independent reference of the C06 stand-in)',
     'C11-small-int-promotion': 'round 5, first run: MISSED (integer matrices were always int64). r_C11 / r_C12 use every integer width and booleans',
+    'C01-mps-canonical-form-cache': 'round 5, first run: MISSED. r_C01 rescales a site tensor of the canonical object in place (factors 2.5, 1 +- 3e-7, -1, 1e-3) and repeats the call',
+    'C01-qr-isometry-shortcut': 'round 5, first run: MISSED. Same history (a factor 1 - 2e-7 is inside np.allclose tolerances)',
+    'C01-qr-single-column-norm': 'round 5, first run: MISSED. r_C01 has objects whose norm is beyond 1e154 / below 1e-154 (the oracle uses an overflow-safe norm)',
+    'C03-asmatrix-singlesite-inplace-shape': 'round 5, first run: CHECKER-BROKEN (the library reshaped an operand in place, after which the harness oracle raised on it). The stand-in takes its references before the call and checks the operand afterwards; clause failures are reported even if other cases ended in a harness exception',
+    'C05-asmatrix-inplace-sum': 'round 5, first run: MISSED (OpGraph.as_matrix was only exercised by the C16/C17 stand-ins, with complex operators throughout). r_C05 compares OpGraph.as_matrix with the symbolic meaning; operator maps mix real and complex matrices (also in r_C16, r_C17)',
+    'C05-asmatrix-skip-zero-coeff': 'round 5, first run: MISSED. Same addition (cancelling chain lists give edges whose coefficients are all zero)',
+    'C14-arnoldi-classical-gram-schmidt': 'round 5, first run: MISSED. r_C14 has general matrices with singular values from 1 to 1e-12 (n = 40, 50, 20-25 iterations), orthonormality to 1e-7',
+    'C17-optree-node-children-alias': 'round 5, first run: MISSED. r_C17 builds two tree nodes from one list and extends one; engine F distinguishes keeping the *elements* of a list (allowed for nodes) from keeping the list itself',
     'C06-zero-coeff-filter-tolerance': 'first run: MISSED. r_C06 now includes parameter points scaled by 1e-9 ... 1e+12 (every parameter value is legal)',
 }
 
